@@ -28,8 +28,38 @@ pub mod biscuit_auth {
     pub mod builder {
         use vstd::prelude::*;
         pub enum Algorithm { Ed25519, Secp256r1 }
+        // ASSUMED: the Rust builders (consuming builder pattern); parsing may refuse the source text
         #[verifier::external_body] pub struct BiscuitBuilder { _p: u8 }
+        #[verifier::external_body] pub struct BlockBuilder { _p: u8 }
+        #[verifier::external_body] pub struct AuthorizerBuilder { _p: u8 }
+        impl Clone for BiscuitBuilder { #[verifier::external_body] fn clone(&self) -> (r: Self) ensures r == *self { unimplemented!() } }
+        impl Clone for BlockBuilder { #[verifier::external_body] fn clone(&self) -> (r: Self) ensures r == *self { unimplemented!() } }
+        impl Clone for AuthorizerBuilder { #[verifier::external_body] fn clone(&self) -> (r: Self) ensures r == *self { unimplemented!() } }
+        impl BiscuitBuilder {
+            #[verifier::external_body] pub fn context(self, context: String) -> Self { unimplemented!() }
+            #[verifier::external_body] pub fn root_key_id(self, id: u32) -> Self { unimplemented!() }
+            #[verifier::external_body] pub fn fact(self, s: &str) -> Result<Self, super::error::Token> { unimplemented!() }
+            #[verifier::external_body] pub fn rule(self, s: &str) -> Result<Self, super::error::Token> { unimplemented!() }
+            #[verifier::external_body] pub fn check(self, s: &str) -> Result<Self, super::error::Token> { unimplemented!() }
+        }
+        impl BlockBuilder {
+            #[verifier::external_body] pub fn new() -> Self { unimplemented!() }
+            #[verifier::external_body] pub fn context(self, context: String) -> Self { unimplemented!() }
+            #[verifier::external_body] pub fn fact(self, s: &str) -> Result<Self, super::error::Token> { unimplemented!() }
+            #[verifier::external_body] pub fn rule(self, s: &str) -> Result<Self, super::error::Token> { unimplemented!() }
+            #[verifier::external_body] pub fn check(self, s: &str) -> Result<Self, super::error::Token> { unimplemented!() }
+        }
+        impl AuthorizerBuilder {
+            #[verifier::external_body] pub fn new() -> Self { unimplemented!() }
+            #[verifier::external_body] pub fn fact(self, s: &str) -> Result<Self, super::error::Token> { unimplemented!() }
+            #[verifier::external_body] pub fn rule(self, s: &str) -> Result<Self, super::error::Token> { unimplemented!() }
+            #[verifier::external_body] pub fn check(self, s: &str) -> Result<Self, super::error::Token> { unimplemented!() }
+            #[verifier::external_body] pub fn policy(self, s: &str) -> Result<Self, super::error::Token> { unimplemented!() }
+            #[verifier::external_body] pub fn build(self, token: &super::Biscuit) -> Result<super::Authorizer, super::error::Token> { unimplemented!() }
+            #[verifier::external_body] pub fn build_unauthenticated(self) -> Result<super::Authorizer, super::error::Token> { unimplemented!() }
+        }
     }
+    #[verifier::external_body] pub struct Authorizer { _p: u8 }
     pub mod format { pub mod schema { pub mod public_key {
         use vstd::prelude::*;
         pub enum Algorithm { Ed25519 = 0, Secp256r1 = 1 }
@@ -82,6 +112,8 @@ pub mod biscuit_auth {
         pub fn from_bytes(bytes: &[u8], algorithm: builder::Algorithm) -> Result<PublicKey, error::Token> { unimplemented!() }
     }
     impl Biscuit {
+        #[verifier::external_body]
+        pub fn builder() -> builder::BiscuitBuilder { unimplemented!() }
         // to_vec().len() == serialized_size() for the SAME token (prost: encoded_len is the length of the
         // encoding); nothing relates the size of seal()'s result to the unsealed size
         #[verifier::external_body]
@@ -184,6 +216,94 @@ pub mod capi {
         #[verifier::external_body]
         pub fn into_raw(self) -> *mut c_char { unimplemented!() }
     }
+    // ---- builder handles: `self.0` holds the Rust builder between calls (handle invariant `.0 is Some`) ----
+    //@extract biscuit-capi/src/lib.rs :: struct BiscuitBuilder
+    //@end
+    //@extract biscuit-capi/src/lib.rs :: struct BlockBuilder
+    //@end
+    //@extract biscuit-capi/src/lib.rs :: struct AuthorizerBuilder
+    //@end
+    //@extract biscuit-capi/src/lib.rs :: struct Authorizer
+    //@end
+    impl BiscuitBuilder {
+        //@extract biscuit-capi/src/lib.rs :: impl BiscuitBuilder :: fn set_context
+        //@ sub context\.to_string\(\) => verif_str_to_string(context)
+        //@ requires handle: old(self).0 is Some
+        //@ ensures handle: final(self).0 is Some
+        //@end
+        //@extract biscuit-capi/src/lib.rs :: impl BiscuitBuilder :: fn set_root_key_id
+        //@ requires handle: old(self).0 is Some
+        //@ ensures handle: final(self).0 is Some
+        //@end
+        //@extract biscuit-capi/src/lib.rs :: impl BiscuitBuilder :: fn add_fact
+        //@ requires handle: old(self).0 is Some
+        //@ ensures handle: final(self).0 is Some
+        //@end
+        //@extract biscuit-capi/src/lib.rs :: impl BiscuitBuilder :: fn add_rule
+        //@ requires handle: old(self).0 is Some
+        //@ ensures handle: final(self).0 is Some
+        //@end
+        //@extract biscuit-capi/src/lib.rs :: impl BiscuitBuilder :: fn add_check
+        //@ requires handle: old(self).0 is Some
+        //@ ensures handle: final(self).0 is Some
+        //@end
+    }
+    impl BlockBuilder {
+        //@extract biscuit-capi/src/lib.rs :: impl BlockBuilder :: fn set_context
+        //@ sub context\.to_string\(\) => verif_str_to_string(context)
+        //@ requires handle: old(self).0 is Some
+        //@ ensures handle: final(self).0 is Some
+        //@end
+        //@extract biscuit-capi/src/lib.rs :: impl BlockBuilder :: fn add_fact
+        //@ requires handle: old(self).0 is Some
+        //@ ensures handle: final(self).0 is Some
+        //@end
+        //@extract biscuit-capi/src/lib.rs :: impl BlockBuilder :: fn add_rule
+        //@ requires handle: old(self).0 is Some
+        //@ ensures handle: final(self).0 is Some
+        //@end
+        //@extract biscuit-capi/src/lib.rs :: impl BlockBuilder :: fn add_check
+        //@ requires handle: old(self).0 is Some
+        //@ ensures handle: final(self).0 is Some
+        //@end
+    }
+    impl AuthorizerBuilder {
+        //@extract biscuit-capi/src/lib.rs :: impl AuthorizerBuilder :: fn add_fact
+        //@ requires handle: old(self).0 is Some
+        //@ ensures handle: final(self).0 is Some
+        //@end
+        //@extract biscuit-capi/src/lib.rs :: impl AuthorizerBuilder :: fn add_rule
+        //@ requires handle: old(self).0 is Some
+        //@ ensures handle: final(self).0 is Some
+        //@end
+        //@extract biscuit-capi/src/lib.rs :: impl AuthorizerBuilder :: fn add_check
+        //@ requires handle: old(self).0 is Some
+        //@ ensures handle: final(self).0 is Some
+        //@end
+        //@extract biscuit-capi/src/lib.rs :: impl AuthorizerBuilder :: fn add_policy
+        //@ requires handle: old(self).0 is Some
+        //@ ensures handle: final(self).0 is Some
+        //@end
+    }
+    #[verifier::external_body]
+    pub fn verif_str_to_string(s: &str) -> String { unimplemented!() }
+    //@extract biscuit-capi/src/lib.rs :: fn biscuit_builder
+    //@ ensures handle: r is Some && r->Some_0.0 is Some
+    //@end
+    //@extract biscuit-capi/src/lib.rs :: fn create_block
+    //@ ensures handle: r.0 is Some
+    //@end
+    //@extract biscuit-capi/src/lib.rs :: fn authorizer_builder
+    //@ ensures handle: r is Some && r->Some_0.0 is Some
+    //@end
+    //@extract biscuit-capi/src/lib.rs :: fn authorizer_builder_build
+    //@ requires handle: builder is Some ==> builder->Some_0.0 is Some
+    //@ ensures null: builder is None ==> r is None
+    //@end
+    //@extract biscuit-capi/src/lib.rs :: fn authorizer_builder_build_unauthenticated
+    //@ requires handle: builder is Some ==> builder->Some_0.0 is Some
+    //@ ensures null: builder is None ==> r is None
+    //@end
     //@extract biscuit-capi/src/lib.rs :: fn biscuit_block_context
     //@ rewrites R9 R17
     //@end
@@ -197,5 +317,8 @@ pub mod capi {
 //@canary sealed-size-query :: biscuit-capi::lib::biscuit_sealed_size :: match biscuit.0.seal().and_then(|b| b.serialized_size()) { ==>> match biscuit.0.seal().and_then(|b| biscuit.0.serialized_size()) {
 //@canary serialize-null-check :: biscuit-capi::lib::biscuit_serialize :: let biscuit = biscuit.unwrap(); ==>> let biscuit = biscuit.unwrap(); if false { return 0; }
 //@canary keypair-serialize-size :: biscuit-capi::lib::key_pair_serialize :: std::slice::from_raw_parts_mut(buffer_ptr, 32) ==>> std::slice::from_raw_parts_mut(buffer_ptr, 31)
+//@canary builder-handle-emptied :: biscuit-capi::lib::BiscuitBuilder::add_fact :: self.0.clone().unwrap(); ==>> self.0.take().unwrap();
+//@canary authorizer-builder-handle-emptied :: biscuit-capi::lib::AuthorizerBuilder::add_policy :: self.0.clone().unwrap(); ==>> self.0.take().unwrap();
+//@canary builder-null-no-return :: biscuit-capi::lib::authorizer_builder_build :: update_last_error(Error::InvalidArgument);\n        return None; ==>> update_last_error(Error::InvalidArgument);
 } // verus!
 fn main() {}
